@@ -53,13 +53,55 @@ fn same_interface(menv: &Env, mactor: &Option<Ty>, env2: &TypeEnv, actor2: &Opti
     }
 }
 
+/// `\u{X}` with X >= 0x80 replaced by the character itself (generated programs have escapes in string literals only)
+fn unescape_non_ascii(src: &str) -> String {
+    let mut out = String::new();
+    let mut rest = src;
+    while let Some(i) = rest.find("\\u{") {
+        // an escaped backslash before `u{` is not an escape: count the backslashes that precede
+        let bs = rest[..i].chars().rev().take_while(|c| *c == '\\').count();
+        let after = &rest[i + 3..];
+        let end = after.find('}');
+        let cp = end.and_then(|e| u32::from_str_radix(&after[..e], 16).ok());
+        match (bs % 2 == 0, end, cp.and_then(char::from_u32)) {
+            (true, Some(e), Some(c)) if (c as u32) >= 0x80 => {
+                out.push_str(&rest[..i]);
+                out.push(c);
+                rest = &after[e + 1..];
+            }
+            _ => {
+                out.push_str(&rest[..i + 3]);
+                rest = after;
+            }
+        }
+    }
+    out.push_str(rest);
+    out
+}
+
 fn check_prog(p: &Prog, rep: &mut Report) {
     let src = p.to_did();
     rep.states += 1;
     let key = |c: &str| format!("{c}|{}", src.replace('\n', " "));
     let case = |extra: &str| json!({"program": src, "printed": extra});
     let (menv, mactor) = p.to_model();
-    let (te, actor, ast) = match catch(|| front_end(&src)) {
+    // the generated text spells every non-ASCII character as `\u{..}`; if the front end does not take that spelling,
+    // the same program with the characters written literally is the subject (the printers choose their own spelling)
+    let first = catch(|| front_end(&src));
+    let first = match first {
+        Ok(Err(e)) => {
+            let raw = unescape_non_ascii(&src);
+            match (raw != src).then(|| catch(|| front_end(&raw))) {
+                Some(Ok(Ok(x))) => {
+                    rep.count("front_end_takes_the_literal_spelling_only", 1);
+                    Ok(Ok(x))
+                }
+                _ => Ok(Err(e)),
+            }
+        }
+        other => other,
+    };
+    let (te, actor, ast) = match first {
         Ok(Ok(x)) => x,
         Ok(Err(e)) => {
             // the generator only produces well-formed programs; C14 decides acceptance
